@@ -1,6 +1,7 @@
 (* C18 — numeric aggregates equal the reference folds over the numeric elements.
    This file contains only the property theorems (closed by [exact]) and a non-vacuity example. *)
 From Anytype Require Import Base FloatBits Value Aggregates.
+From Anytype Require Import Heap HeapExt HeapExtProofs.
 Local Open Scope Z_scope.
 
 Section C18.
@@ -67,6 +68,13 @@ Example C18_max_seed0_refuted :
   fold_left (max_step of_int) [VInt (-3); VFloat 13832806255468478464] (Ok 0) <> Ok 13832806255468478464.
 Proof. vm_compute. congruence. Qed.
 
+
+(* heap level (HeapExt.v): an aggregate called on a list that lives in a heap of containers with identity - at any point of any
+   program - returns the model above applied to the list's current element sequence and leaves the whole state untouched *)
+Theorem C18_heap_aggregate : forall (fadd fmul fdiv : Z -> Z -> Z) (of_int : Z -> Z) s a r id l, reg_list s r = Some (id, l) ->
+  xstep_core fadd fmul fdiv of_int s (XLAgg a r) = (s, agg_model fadd fmul fdiv of_int a (map val_of_hscalar l)).
+Proof. exact xagg_step. Qed.
+
 Print Assumptions C18_sum.
 Print Assumptions C18_prod.
 Print Assumptions C18_avg.
@@ -77,3 +85,4 @@ Print Assumptions C18_intprod.
 Print Assumptions C18_intmin.
 Print Assumptions C18_intmax.
 Print Assumptions C18_empty.
+Print Assumptions C18_heap_aggregate.
